@@ -156,7 +156,7 @@ func runQuiet(t *rapid.T, version string, client string) {
 	heights := rapid.IntRange(2, 5).Draw(t, "heights")
 	recheck := rapid.IntRange(0, 4).Draw(t, "recheck") != 0
 
-	dir, err := os.MkdirTemp("", "c05quiet")
+	dir, err := os.MkdirTemp("/tmp", "c05q") // short: a unix socket path is limited to ~108 bytes
 	if err != nil {
 		t.Fatalf("VERIF-INFRA: %v", err)
 	}
